@@ -22,6 +22,41 @@ def LitClass.name : LitClass → String
   | .dateCast => "cast:DATE" | .castStr ty => "cast:" ++ ty
   | .array => "array" | .tuple => "tuple" | .struct => "struct" | .varmap => "varmap"
 
+/-- value trees: {"s":[kind,falsy]} | {"q":[kind,[elems]]} | {"r":[[names],[vals]]} | {"d":[[keys],[vals]]} -/
+partial def PyVal.ofJson (j : Json) : Except String PyVal := do
+  if let .ok a := j.getObjVal? "s" then
+    let k ← (a.getArrVal? 0) >>= Json.getStr?
+    let f ← (a.getArrVal? 1) >>= Json.getBool?
+    match PyKind.ofName k with
+    | some k => return .scalar k f
+    | none => throw s!"unknown kind {k}"
+  else if let .ok a := j.getObjVal? "q" then
+    let k ← (a.getArrVal? 0) >>= Json.getStr?
+    let es ← (a.getArrVal? 1) >>= Json.getArr?
+    match PyKind.ofName k with
+    | some k => return .seq k (← es.toList.mapM PyVal.ofJson)
+    | none => throw s!"unknown kind {k}"
+  else if let .ok a := j.getObjVal? "r" then
+    let ns ← (a.getArrVal? 0) >>= Json.getArr?
+    let vs ← (a.getArrVal? 1) >>= Json.getArr?
+    return .row (← ns.toList.mapM Json.getStr?) (← vs.toList.mapM PyVal.ofJson)
+  else if let .ok a := j.getObjVal? "d" then
+    let ks ← (a.getArrVal? 0) >>= Json.getArr?
+    let vs ← (a.getArrVal? 1) >>= Json.getArr?
+    return .dict (← ks.toList.mapM PyVal.ofJson) (← vs.toList.mapM PyVal.ofJson)
+  else throw "bad value tree"
+
+/-- types: {"p": name} | {"a": elem} | {"m": [k, v]} | {"s": [[names], [types]]} -/
+partial def STy.toJson : STy → Json
+  | .prim t => Json.mkObj [("p", Lean.toJson t)]
+  | .array e => Json.mkObj [("a", e.toJson)]
+  | .map k v => Json.mkObj [("m", Json.arr #[k.toJson, v.toJson])]
+  | .struct ns ts => Json.mkObj [("s", Json.arr #[Lean.toJson ns, Json.arr (ts.map STy.toJson).toArray])]
+
+def optTy : Option STy → Json
+  | some t => t.toJson
+  | none => Json.null
+
 def cps (l : List Char) : Json := toJson (l.map Char.toNat)
 def ofCps (l : List Nat) : List Char := l.map Char.ofNat
 
